@@ -81,6 +81,9 @@ Proof. exact parse_duration_c_ok. Qed.
 (* the guards are what keeps the sites unreachable: the same accesses without their guard do panic *)
 Example C08_unguarded_index_panics : index (Str.split arrow [97]) 1 240 = Panic 240 /\ slice_to (@nil N) 1 364 = Panic 364 /\ deref (@None N) 289 = Panic 289.
 Proof. repeat split. Qed.
+(* CORRECTION (second audit, N6): the Example above exercises the primitives of Kit/Chk.v only (its site 289 is in no model,
+   and slice_to [] 1 is not what line 364 evaluates).  Its role is taken over by C08_srt_guards_load_bearing,
+   C08_vtt_guards_load_bearing and C08_dur_guards_load_bearing at the end of this file. *)
 
 (* teletext: any page option, any list of delivered (time, payload) pairs with arbitrary bytes *)
 Theorem C08_teletext_reader_total : forall page ds (p : N), ttx_feed page ds <> Panic p.
@@ -307,6 +310,77 @@ End C08_TTML.
 Print Assumptions C08_TTML.C08_ttml_checked_reader_total.
 Print Assumptions C08_TTML.C08_ttml_checked_writer_total.
 Print Assumptions C08_TTML.C08_ttml_checked_propagate_total.
+
+(* ---- second audit, N6: the guards of the checked SubRip / WebVTT / parseDuration transcriptions are load-bearing ----
+   Three repairs of Model/SrtC.v, Model/VttC.v, Model/DurC.v:
+   (1) x[:len(x)-1] was written slice_to x (length x - 1) with the nat subtraction, 0 - 1 = 0, so that on the empty slice
+       it returned Ok [] where Go evaluates x[:-1] and panics: the sites srt.go 70 and 265, webvtt.go 364 and 642,
+       subtitles.go 815 could never fire, whatever stood in front of them.  They now use Kit.Chk.slice_to_pred, whose bound is
+       the checked predecessor idx_pred (Panic on 0), as Model/SsaC.v already did.  The sites x[len(x)-1] (srt.go 68,
+       webvtt.go 167, subtitles.go 803) were sound: index [] 0 is Panic.
+   (2) webvtt.go 656-716 (Line.webVTTBytes, the two tag loops of LineItem.webVTTBytes, webVTTTagsCommonPrefix) were
+       structural recursions without any site; they are index loops now, one site per index expression (659, 662, 664,
+       695, 704, 714), proved equal to the structural definitions of Model/Vtt.v (Proofs/VttChk.v).
+   (3) The examples below replace C08_unguarded_index_panics: each *_noguard* function is the checked model function with
+       ONE guard of the Go code removed and nothing else changed (definitions next to the proofs, Proofs/SrtChk.v,
+       VttChk.v, DurChk.v); on the input shown it returns Panic at the site behind that guard, and the guarded function
+       returns Ok / Err on the same input.  One per kind of guard at least: length test before an index (92, 103, 251, 275,
+       824, 827), emptiness test before [len-1] / [:len-1] (68, 70, 167, 364), nil test before a dereference (286, 588,
+       688), loop bounds (135, 261, 664, 695, 704, 714), idx > 0 / idx < len-1 before Items[idx-1] / Items[idx+1]
+       (659, 662), the caller's strings.Contains before left[1] (240).
+   Two guards turn out NOT to be panic guards, and the statements say so instead of pretending: without
+   len(s.Items) == 0 the SubRip writer does not panic at 265 (c starts with the BOM: it writes a truncated BOM), and
+   without len(parts) >= 2 parseDuration panics on no input (strings.Split returns at least one part); the sites 265
+   and 803 / 815 are live all the same (c without the BOM; an empty list of parts).  For webvtt.go 642 likewise c starts
+   with WEBVTT.  The regexp sub-match accesses (webvtt.go 368-377, 430-449) remain library contracts. *)
+Example C08_srt_guards_load_bearing :
+  (finalize_c_noguard [] = Panic 68 /\ finalize_c_noguard_slice [] = Panic 70 /\ finalize_c [] = Ok ([], [])) /\
+  (srt_timing_c_noguard_split [97%N] = Panic 92 /\ srt_timing_c [97%N] = Err EParse) /\
+  (srt_timing_c_noguard_fields ex_timing_no_end = Panic 103 /\ srt_timing_c ex_timing_no_end = Err EParse) /\
+  (run_bytes_c_noguard_nil ex_plain_run = Panic 286 /\ run_bytes_c ex_plain_run = Ok [97%N]) /\
+  (strip_items_c_noguard 1 [mkSrun [] None 0] = Panic 135 /\ strip_items_c 1 [mkSrun [] None 0] = Ok []) /\
+  (write_srt_c_noguard_empty [] = Ok [239%N; 187%N] /\ write_srt_c_noguard_empty_nobom [] = Panic 265 /\
+   write_srt_c [] = Err ENothingToWrite).
+Proof. exact srt_guards_load_bearing. Qed.
+Example C08_vtt_guards_load_bearing :
+  ((parse_text_vtt_c_noguard ex_end_tag [] = Panic 364 /\ parse_text_vtt_c ex_end_tag [] = Ok (mkVline [] [], [])) /\
+   (step_cue_c_noguard vstate0 ex_cue_no_end = Panic 251 /\ step_cue_c vstate0 ex_cue_no_end = Err EParse) /\
+   (step_cue_c vstate0 [97%N] = Panic 240 /\ is_ok (vtt_step_c vstate0 [97%N]) = true) /\
+   (settings_loop_c_noguard 2 1 [[97%N]; [97%N;58%N;98%N]] [] vset0 None = Panic 261 /\
+    settings_loop_c 2 1 [[97%N]; [97%N;58%N;98%N]] [] vset0 None = Ok (vset0, None)) /\
+   (settings_loop_c_noguard_split 2 1 [[97%N]; [97%N]] [] vset0 None = Panic 275 /\
+    settings_loop_c 2 1 [[97%N]; [97%N]] [] vset0 None = Err EParse) /\
+   (last_ends_brace_c_noguard [] = Panic 167 /\ last_ends_brace_c [] = Ok true)) /\
+  ((vrun_bytes_c_noguard_prev None None ex_run = Panic 688 /\ vrun_bytes_c None None ex_run = Ok [97%N]) /\
+   (vitem_settings_c_noguard ex_item_nil_style = Panic 588 /\ vitem_settings_c ex_item_nil_style = Ok []) /\
+   (vruns_loop_c_noguard_prev 1 0 [ex_run] = Panic 659 /\ vruns_loop_c_noguard_next 1 0 [ex_run] = Panic 662 /\
+    vruns_loop_c 1 0 [ex_run] = Ok [97%N]) /\
+   (vruns_loop_c_noguard_bound 2 0 [ex_run] = Panic 664 /\ vruns_loop_c 2 0 [ex_run] = Ok [97%N]) /\
+   (tags_open_c_noguard 2 0 [ex_tag_b] = Panic 695 /\ tags_open_c 2 0 [ex_tag_b] = Ok [60%N;98%N;62%N]) /\
+   (tags_close_c_noguard 1 0 [ex_tag_b] = Panic 704 /\ tags_close_c 1 0 [ex_tag_b] = Ok [60%N;47%N;98%N;62%N]) /\
+   (common_prefix_loop_c_noguard_a 2 0 [ex_tag_b] [ex_tag_b; ex_tag_b] = Panic 714 /\
+    common_prefix_loop_c_noguard_b 2 0 [ex_tag_b; ex_tag_b] [ex_tag_b] = Panic 714 /\
+    common_prefix_loop_c 2 0 [ex_tag_b] [ex_tag_b; ex_tag_b] = Ok 1%nat /\
+    common_prefix_loop_c 2 0 [ex_tag_b; ex_tag_b] [ex_tag_b] = Ok 1%nat) /\
+   vline_bytes_c (mkVline [ex_run_b; ex_run_b; ex_run] []) = Ok [60%N;98%N;62%N;97%N;97%N;60%N;47%N;98%N;62%N;97%N;10%N]).
+Proof. exact (conj vtt_reader_guards_load_bearing vtt_writer_guards_load_bearing). Qed.
+Example C08_dur_guards_load_bearing :
+  (parse_hms_c_noguard3 [53%N] = Panic 827 /\ parse_hms_c [53%N] = Ok None) /\
+  (parse_hms_c_noguard2 [53%N] = Panic 824 /\ parse_hms_c [53%N] = Ok None) /\
+  (parse_duration_on_c_noguard [] Astisub.Model.Dur.comma 3 = Panic 803 /\ slice_to_pred (@nil (list N)) 815 = Panic 815 /\
+   parse_duration_c_noguard [53%N] Astisub.Model.Dur.comma 3 = Ok None /\ parse_duration_c [53%N] Astisub.Model.Dur.comma 3 = Ok None) /\
+  (forall s sep k p, parse_duration_c_noguard s sep k <> Panic p).
+Proof. exact dur_guards_load_bearing. Qed.
+(* the index loops of the WebVTT writer are the structural iterations on which C02 is stated *)
+Theorem C08_vtt_checked_line_agrees : forall l, vline_bytes_c l = Ok (vline_bytes l).
+Proof. exact vline_bytes_ok. Qed.
+Theorem C08_vtt_checked_common_prefix_agrees : forall a b, common_prefix_c a b = Ok (common_prefix a b).
+Proof. exact common_prefix_c_ok. Qed.
+Print Assumptions C08_srt_guards_load_bearing.
+Print Assumptions C08_vtt_guards_load_bearing.
+Print Assumptions C08_dur_guards_load_bearing.
+Print Assumptions C08_vtt_checked_line_agrees.
+Print Assumptions C08_vtt_checked_common_prefix_agrees.
 Print Assumptions C08_TTML.C08_ttml_checked_time_agrees.
 Print Assumptions C08_TTML.C08_ttml_checked_reader_agrees.
 Print Assumptions C08_TTML.C08_ttml_checked_writer_agrees.
